@@ -21,7 +21,8 @@ EXPLANATION = (
     "the first file whose cumulative data length exceeds it and to offset minus the preceding files' data, relative to the "
     "header end; (R5) the reported position is file position - header length + data of the preceding files, from the same "
     "cumulative table; (R6) cread/creadinto advance to the next file exactly when the request is not yet satisfied and the "
-    "stream has not ended, appending at the right buffer offset. Not decided: equality with a byte-array model over "
+    "stream has not ended, appending at the right buffer offset; (R7) the stream table holds one entry per file in the given "
+    "order with that file's own header and data lengths, and totals are sums over it. Not decided: equality with a byte-array model over "
     "arbitrary operation histories (needs executing histories)."
 )
 FIO = "sigpyproc.io.fileio"
@@ -205,6 +206,36 @@ def run(prog: Program, res: Result, tier: str) -> None:
     (res.ok if okp else res.bad)("R5", ps, ps.node, "stream position = position in file + data of the preceding files (none for the first file)" if okp else
                                  "cur_data_pos_stream is not (tell - hdrlen) + cumsum_datalens[ifile-1]", construct="cur_data_pos_stream", key="pos:stream")
 
+    # ---- R7 the stream table -------------------------------------------------------------------------------------
+    SIG = "sigpyproc.io.sigproc"
+    si = prog.cls(SIG, "StreamInfo")
+    defs = [
+        ("get_info_list", "return [getattr(entry, key) for entry in self.entries]", "per-file values in file order"),
+        ("get_combined", "return sum(self.get_info_list(key))", "stream total = sum over files"),
+        ("add_entry", "self.entries.append(finfo)", "files are appended in the order given"),
+    ]
+    for name, want, what in defs:
+        m = si.methods.get(name)
+        ok = m is not None and want in norm(m.node)
+        (res.ok if ok else res.bad)("R7", m, m.node if m else si.node, f"StreamInfo.{name}: {what}" if ok else f"StreamInfo.{name} no longer is `{want}`",
+                                    construct=f"StreamInfo.{name}", key=f"sinfo:{name}")
+    pm = prog.func(SIG, "parse_header_multi")
+    src = norm(pm.node)
+    ok = "sinfo = StreamInfo([FileInfo.from_dict(header)])" in src and "for filename in filenames[1:]:" in src and \
+        "sinfo.add_entry(FileInfo.from_dict(hdr))" in src and "header['nsamples'] = header['stream_info'].get_combined('nsamples')" in src and \
+        "match_header(header, hdr)" in src
+    (res.ok if ok else res.bad)("R7", pm, pm.node, "one FileInfo per file in the given order (headers must match); stream nsamples = sum of the files'" if ok else
+                                "parse_header_multi no longer builds the stream table from every file in order", construct="parse_header_multi", key="sinfo:parse_multi")
+    fi = prog.cls(SIG, "FileInfo")
+    ok = {"filename", "hdrlen", "datalen", "nsamples", "tstart", "tsamp"} <= set(fi.attrs_fields) and \
+        "info_filtered = {key: info[key] for key in attrs.fields_dict(cls)}" in norm(fi.methods["from_dict"].node)
+    (res.ok if ok else res.bad)("R7", fi.methods["from_dict"], fi.node, "FileInfo carries each file's own hdrlen/datalen/nsamples taken by name from its parsed header" if ok else
+                                "FileInfo no longer takes hdrlen/datalen/nsamples by name from the parsed header", construct="FileInfo", key="sinfo:fileinfo")
+    frd = prog.func(FIO, "FileReader.__init__")
+    ok = "filenames = self.sinfo.get_info_list('filename')" in norm(frd.node) and "super().__init__(filenames, mode)" in norm(frd.node)
+    (res.ok if ok else res.bad)("R7", frd, frd.node, "the reader opens exactly the files of the stream table, in table order" if ok else
+                                "FileReader no longer opens the stream table's files in order", construct="FileReader.__init__", key="sinfo:files")
+
     # ---- R6 read loops ---------------------------------------------------------------------------------------------------
     cr = prog.func(FIO, "FileReader.cread")
     src = norm(cr.node)
@@ -241,6 +272,7 @@ def run(prog: Program, res: Result, tier: str) -> None:
     res.floor("R4", 5)
     res.floor("R5", 2)
     res.floor("R6", 11)
+    res.floor("R7", 6)
 
 
 F = "sigpyproc/io/fileio.py"
@@ -276,6 +308,12 @@ MUTANTS = [
      "old": "        if ifile < 0 or ifile >= len(self.files):", "new": "        if ifile < 0:"},
     {"id": "c02-dedisp-seek-elements", "file": R, "expect": "C02.R2",
      "old": "        self._file.seek(start * self.samp_stride)\n        samples_read", "new": "        self._file.seek(start * self.header.nchans)\n        samples_read"},
+]
+MUTANTS += [
+    {"id": "c02-combined-last", "file": "sigpyproc/io/sigproc.py", "expect": "C02.R7",
+     "old": "        return sum(self.get_info_list(key))", "new": "        return self.get_info_list(key)[-1]"},
+    {"id": "c02-entries-prepend", "file": "sigpyproc/io/sigproc.py", "expect": "C02.R7",
+     "old": "        self.entries.append(finfo)", "new": "        self.entries.insert(0, finfo)"},
 ]
 TWINS = [
     {"id": "c02-twin-offset-temp", "file": F,
